@@ -211,8 +211,10 @@ def vec_extend_from_slice(I, args, callee):
        '<str as AsRef>::as_ref', '<[] as AsRef>::as_ref', 'str::as_ref', '<Cow as Deref>::deref', 'Vec::as_ref')
 def seq_as_slice(I, args, callee):
     s = as_slice(args[0])
-    if 'String' in callee or callee.startswith('str') or '<str' in callee:
-        return SliceRef(s.arr, s.start, s.length, 'as_bytes' not in callee)
+    if 'as_bytes' in callee:
+        return SliceRef(s.arr, s.start, s.length, False)
+    if 'String' in callee or 'str' in callee.replace('struct', ''):
+        return SliceRef(s.arr, s.start, s.length, True)
     return s
 
 
